@@ -34,6 +34,8 @@ struct ConvInt
 	static bool same(const int& x, int v) { return x == v; }
 	static const bool pod = true;
 	static long live() { return -1; }
+	static int value(const int& x) { return x; }
+	static const int tt = 0; // join(): decimal text (ArraySeq.tla TextOf(0, v))
 };
 struct ConvCounted
 {
@@ -42,6 +44,8 @@ struct ConvCounted
 	static bool same(const Counted& x, int v) { return x.v == v && x.sane(); }
 	static const bool pod = false;
 	static long live() { return Counted::live; }
+	static int value(const Counted& x) { return x.v; }
+	static const int tt = -1; // not convertible to String: no join()
 };
 // value -> String; two tables: short/long and 15/16 bytes (inline <-> heap boundary), ordered like the values
 template <int TABLE>
@@ -61,6 +65,12 @@ struct ConvStr
 	}
 	static const bool pod = false;
 	static long live() { return -1; }
+	static int value(const String& x)
+	{
+		for (int v = 0; v < 4; v++) if (same(x, v)) return v;
+		return -1;
+	}
+	static const int tt = TABLE + 1; // join(): ArraySeq.tla TabA / TabB - keep the tables equal
 };
 
 // ---- container-kind dispatch -------------------------------------------------------------------
@@ -68,14 +78,18 @@ template <class T> void do_push(Array<T>& a, const T& x) { a << x; }
 template <class T> void do_push(Stack<T>& a, const T& x) { a.push(x); }
 template <class T> void do_push(Queue<T>& a, const T& x) { a.put(x); }
 template <class T> T do_popget(Array<T>& a) { T y = a.last(); a.resize(a.length() - 1); return y; }
-template <class T> T do_popget(Stack<T>& a) { return a.popget(); }
+template <class T> T do_popget(Stack<T>& a) { if (a.length() & 1) { T y; a >> y; return y; } return a.popget(); }
 template <class T> T do_popget(Queue<T>& a) { T y = a.last(); a.removeLast(); return y; }
+template <class T> const T& do_top(const Array<T>& a, int i) { return a[a.length() - 1 - i]; }
+template <class T> const T& do_top(const Stack<T>& a, int i) { return i == 0 ? a.top() : a.top(i); }
+template <class T> T& do_top(Stack<T>& a, int i) { return i == 0 ? a.top() : a.top(i); }
+template <class T> const T& do_top(const Queue<T>& a, int i) { return a[a.length() - 1 - i]; }
 template <class T> void do_pop(Array<T>& a, int n) { a.resize(a.length() - n); }
 template <class T> void do_pop(Stack<T>& a, int n) { if (n == 1) a.pop(); else a.pop(n); }
 template <class T> void do_pop(Queue<T>& a, int n) { a.resize(a.length() - n); }
 template <class T> T do_get(Array<T>& a) { T y = a[0]; a.remove(0); return y; }
 template <class T> T do_get(Stack<T>& a) { T y = a[0]; a.remove(0, 1); return y; }
-template <class T> T do_get(Queue<T>& a) { return a.get(); }
+template <class T> T do_get(Queue<T>& a) { if (a.length() & 1) { T y; a >> y; return y; } return a.get(); }
 
 template <class Cv>
 struct SuccFn
@@ -100,5 +114,126 @@ struct EqFn
 	typename Cv::T ref;
 	bool operator()(const typename Cv::T& x) const { return x == ref; }
 };
+
+
+// ---- the remaining Array surface (ArraySeq.tla, section "remaining public surface") ---------------
+// element type used as the "other" type K of the converting constructor / with<K>() / map_<K>() / operator=(Array<K>)
+template <class T>
+struct Box
+{
+	T x;
+	Box() : x() {}
+	Box(const T& t) : x(t) {}
+	operator T() const { return x; }
+};
+template <class T>
+struct BoxFn
+{
+	Box<T> operator()(const T& x) const { return Box<T>(x); }
+};
+template <class Cv>
+struct GreaterFn
+{
+	bool operator()(const typename Cv::T& x, const typename Cv::T& y) const { return y < x; }
+};
+template <class Cv>
+struct KeyFn // ArraySeq.tla KeyOf
+{
+	int operator()(const typename Cv::T& x) const { return (2 * Cv::value(x)) % 5; }
+};
+template <class Cv>
+struct ParFn // ArraySeq.tla ParOf
+{
+	int operator()(const typename Cv::T& x) const { return Cv::value(x) % 2; }
+};
+template <class Cv>
+struct LtFn
+{
+	typename Cv::T ref;
+	bool operator()(const typename Cv::T& x) const { return x < ref; }
+};
+
+// initializer lists have a compile-time length: one case per length (0..6)
+#define C01_LIST_SWITCH(n, X, L0, L1, L2, L3, L4, L5, L6) \
+	switch (n) { case 0: L0; break; case 1: L1; break; case 2: L2; break; case 3: L3; break; \
+	case 4: L4; break; case 5: L5; break; default: L6; break; }
+
+template <class T>
+Array<T> listCtor(const T* x, int n)
+{
+	C01_LIST_SWITCH(n, x,
+		return Array<T>(std::initializer_list<T>()),
+		return Array<T>({ x[0] }),
+		return Array<T>({ x[0], x[1] }),
+		return Array<T>({ x[0], x[1], x[2] }),
+		return Array<T>({ x[0], x[1], x[2], x[3] }),
+		return Array<T>({ x[0], x[1], x[2], x[3], x[4] }),
+		return Array<T>({ x[0], x[1], x[2], x[3], x[4], x[5] }))
+	return Array<T>();
+}
+template <class T>
+Array<T> listArrayInit(const T* x, int n)
+{
+	C01_LIST_SWITCH(n, x,
+		return array<T>(std::initializer_list<T>()),
+		return array({ x[0] }),
+		return array({ x[0], x[1] }),
+		return array({ x[0], x[1], x[2] }),
+		return array({ x[0], x[1], x[2], x[3] }),
+		return array({ x[0], x[1], x[2], x[3], x[4] }),
+		return array({ x[0], x[1], x[2], x[3], x[4], x[5] }))
+	return Array<T>();
+}
+template <class T>
+Array<T> listArrayFn(const T* x, int n)
+{
+	C01_LIST_SWITCH(n, x,
+		return Array<T>(),
+		return array(x[0]),
+		return array(x[0], x[1]),
+		return array(x[0], x[1], x[2]),
+		return array(x[0], x[1], x[2], x[3]),
+		return array(x[0], x[1], x[2], x[3], x[4]),
+		return array(x[0], x[1], x[2], x[3], x[4], x[5]))
+	return Array<T>();
+}
+template <class T>
+void listAssign(Array<T>& a, const T* x, int n)
+{
+	C01_LIST_SWITCH(n, x,
+		a = std::initializer_list<T>(),
+		a = { x[0] },
+		(a = { x[0], x[1] }),
+		(a = { x[0], x[1], x[2] }),
+		(a = { x[0], x[1], x[2], x[3] }),
+		(a = { x[0], x[1], x[2], x[3], x[4] }),
+		(a = { x[0], x[1], x[2], x[3], x[4], x[5] }))
+}
+template <class T>
+void listAppend(Array<T>& a, const T* x, int n)
+{
+	C01_LIST_SWITCH(n, x,
+		a.append(std::initializer_list<T>()),
+		a.append({ x[0] }),
+		a.append({ x[0], x[1] }),
+		a.append({ x[0], x[1], x[2] }),
+		a.append({ x[0], x[1], x[2], x[3] }),
+		a.append({ x[0], x[1], x[2], x[3], x[4] }),
+		a.append({ x[0], x[1], x[2], x[3], x[4], x[5] }))
+}
+
+// join() exists only for element types convertible to String
+template <class T> String joinOf(const Array<T>& a, const String& sep) { return a.join(sep); }
+inline String joinOf(const Array<Counted>&, const String&) { return String(); }
+
+// Array<T> -> Array<Box<T>> -> Array<T> by the three conversion routes
+template <class T>
+Array<T> convertVia(const Array<T>& a, const std::string& via)
+{
+	if (via == "with") { Array<Box<T> > b = a.template with<Box<T> >(); return b.template with<T>(); }
+	if (via == "map_") { Array<Box<T> > b = a.template map_<Box<T> >(BoxFn<T>()); return Array<T>(b); }
+	Array<Box<T> > b(a);
+	return Array<T>(b);
+}
 
 #endif
